@@ -106,6 +106,13 @@ fn check_hex(h: &Hex, bytes: &[u8], ctx: &str) -> (Vec<(String, String)>, u64) {
     c.eq("hex.print", "Display", caught(|| format!("{h}")), Ok(want_print.clone()));
     c.eq("hex.print", "Debug", caught(|| format!("{h:?}")), Ok(want_print.clone()));
     c.eq("hex.full_range", "[..]", caught(|| h[..].to_vec()), Ok(b.to_vec()));
+    c.eq("hex.clone", "clone() == h", caught(|| h.clone() == *h && h.clone().bytes() == b), Ok(true));
+    c.eq("hex.from_vec", "from_vec(bytes) == h", caught(|| Hex::from_vec(b.to_vec()) == *h && *h == Hex::from_vec(b.to_vec())), Ok(true));
+    c.eq("hex.from_slice", "from_slice(bytes) == h", caught(|| Hex::from_slice(b) == *h), Ok(true));
+    if let Ok(txt) = std::str::from_utf8(b) {
+        c.eq("hex.from_str_bytes", "from_str_bytes(text) == h", caught(|| Hex::from_str_bytes(txt) == *h), Ok(true));
+    }
+    c.eq("hex.empty", "== Hex::empty() iff no bytes", caught(|| *h == Hex::empty()), Ok(b.is_empty()));
     c.eq("hex.from_str_print", "from_str(print(h)) == h", caught(|| Hex::from_str(&h.print()).map(|x| x == *h && x.bytes() == b).unwrap_or(false)), Ok(true));
     c.eq("hex.to_utf8", "to_utf8()", caught(|| h.to_utf8().ok()), Ok(String::from_utf8(b.to_vec()).ok()));
     let want_i = if b.len() == 8 { Some(i64::from_be_bytes(b.try_into().unwrap())) } else { None };
@@ -138,6 +145,13 @@ fn check_hex(h: &Hex, bytes: &[u8], ctx: &str) -> (Vec<(String, String)>, u64) {
         for &j in &idxs {
             c.eq("hex.range", &format!("[{i}..{j}]"), caught(|| h[i..j].to_vec()), caught(|| b[i..j].to_vec()));
             c.eq("hex.range_inclusive", &format!("[{i}..={j}]"), caught(|| h[i..=j].to_vec()), caught(|| b[i..=j].to_vec()));
+            // a RangeInclusive that was iterated to exhaustion is still a range value (it denotes j+1..j+1)
+            if i <= j && j <= IMAX {
+                let mut r = i..=j;
+                for _ in r.by_ref() {}
+                let (r1, r2) = (r.clone(), r);
+                c.eq("hex.range_inclusive_exhausted", &format!("[exhausted {i}..={j}]"), caught(|| h[r1].to_vec()), caught(|| b[r2].to_vec()));
+            }
         }
     }
     (c.fails, c.evals)
@@ -171,6 +185,21 @@ impl HexEngine {
                     evals += 1;
                     if caught(|| a == b) != Ok(true) {
                         fails.push(("hex.eq".into(), format!("{ra:?} and {rb:?} of the same bytes {} are not equal", hx(bytes))));
+                    }
+                }
+                // every single-bit difference must break equality (both operand orders)
+                for pos in 0..len {
+                    for bit in 0..8 {
+                        let mut other = bytes.to_vec();
+                        other[pos] ^= 1 << bit;
+                        for rep in REPS {
+                            if let Some(o) = make(rep, &other, &case.pad) {
+                                evals += 1;
+                                if caught(|| *a == o || o == *a) != Ok(false) {
+                                    fails.push(("hex.eq".into(), format!("{ra:?} of {} equals {rep:?} of {} (byte {pos}, bit {bit} differs)", hx(bytes), hx(&other))));
+                                }
+                            }
+                        }
                     }
                 }
                 // differs from a byte string that differs in the last byte / in length
@@ -768,6 +797,26 @@ impl Engine for LabelEngine {
         if failure.is_none() {
             let mut values: Vec<Label> = vec![Label::Alpha(0), Label::Alpha(1), Label::Alpha(42), Label::Alpha(usize::MAX)];
             values.extend((1..=6).map(|k| Label::Alpha(usize::MAX - k)));
+            // indices next to every power of ten and of two (digit-count and width boundaries)
+            let mut p10: u128 = 1;
+            for _ in 0..20 {
+                for d in [-21i128, -2, -1, 0, 1] {
+                    let v = p10 as i128 + d;
+                    if v >= 0 && v <= usize::MAX as i128 {
+                        values.push(Label::Alpha(v as usize));
+                    }
+                }
+                p10 *= 10;
+            }
+            for k in 0..64 {
+                let p = 1u128 << k;
+                for d in [-1i128, 0, 1] {
+                    let v = p as i128 + d;
+                    if v >= 0 && v <= usize::MAX as i128 {
+                        values.push(Label::Alpha(v as usize));
+                    }
+                }
+            }
             values.extend([Label::Alpha(u32::MAX as usize), Label::Alpha(u32::MAX as usize + 1), Label::Alpha(1 << 40), Label::Alpha(10_000_000), Label::Alpha(9_999_999)]);
             for c in ALPHABET.iter().chain(['x', 'π', 'σ', 'Ω', 'я', '中', '😀'].iter()) {
                 if *c != ' ' && *c != 'α' {
